@@ -14,7 +14,7 @@ from vlib import Rng
 from props import c10, englib
 
 
-def build(seed=77, n=28):
+def build(seed=77, n=60):
     rng = Rng(seed).fork("c10pin")
     out = []
     for i in range(n):
